@@ -20,6 +20,7 @@
 #include "oomd/PluginConstructionContext.h"
 #include "oomd/config/ConfigTypes.h"
 #include "oomd/engine/Engine.h"
+#include "oomd/include/Verif.h"
 
 namespace Oomd {
 
@@ -31,6 +32,7 @@ void DropInServiceAdaptor::updateDropIns() {
   {
     std::lock_guard<std::mutex> lock(queue_mutex_);
     drop_in_queue = std::move(drop_in_queue_);
+    OOMD_VERIF_POINT("dropin.swap", drop_in_queue.size(), 0);
   }
 
   for (auto&& [tag, unit] : drop_in_queue) {
@@ -43,9 +45,11 @@ void DropInServiceAdaptor::updateDropIns() {
     if (!unit) {
       // If unit is nullopt, we just need to remove it
       handleDropInRemoveResult(tag, true);
+      OOMD_VERIF_POINT("dropin.apply", (long)tag.c_str(), 0);
     } else {
       bool drop_in_add_ok = engine_.addDropInConfig(tag, std::move(*unit));
       handleDropInAddResult(tag, drop_in_add_ok);
+      OOMD_VERIF_POINT("dropin.apply", (long)tag.c_str(), drop_in_add_ok ? 1 : 2);
     }
   }
 }
@@ -54,6 +58,7 @@ bool DropInServiceAdaptor::scheduleDropInAdd(
     const std::string& tag,
     const Config2::IR::Root& drop_in) {
   const PluginConstructionContext compile_context(cgroup_fs_);
+  OOMD_VERIF_POINT("dropin.compile", (long)tag.c_str(), 0);
   auto unit = Config2::compileDropIn(root_, drop_in, compile_context);
   if (!unit.has_value()) {
     return false;
@@ -61,12 +66,14 @@ bool DropInServiceAdaptor::scheduleDropInAdd(
 
   std::lock_guard<std::mutex> lock(queue_mutex_);
   drop_in_queue_.emplace_back(tag, std::move(unit.value()));
+  OOMD_VERIF_POINT("dropin.sched", (long)tag.c_str(), 1);
   return true;
 }
 
 void DropInServiceAdaptor::scheduleDropInRemove(const std::string& tag) {
   std::lock_guard<std::mutex> lock(queue_mutex_);
   drop_in_queue_.emplace_back(tag, std::nullopt);
+  OOMD_VERIF_POINT("dropin.sched", (long)tag.c_str(), 0);
 }
 
 } // namespace Oomd
